@@ -842,13 +842,16 @@ fn run_early_stop(
             // makes the collector raise the stop flag. How many batches go by before the collector gets to
             // run is a matter of scheduling (the analysis loop does not stop by itself), so the number of
             // failed writes is not bounded by a constant under an adversarial schedule - but a run in which
-            // writes keep failing and NO fatal is ever reported and the stop flag is never raised has not
+            // a write failed and NO fatal is ever reported and the stop flag is never raised has not
             // noticed at all: on an endless input it would never end.
             // (only for output that is produced while the input is processed: views and filtered data; the
             // report and the statistics are printed once, at the end)
             let streaming = !v.argv.iter().any(|a| a == "check");
             let noticed = oracle::has_fatal(&r.stderr) || r.io.input_bytes_after_stop.is_some();
-            if streaming && r.io.stdout_failed_writes >= 3 && !noticed {
+            // a view prints batch by batch: its first failed write already counts; the writer flushes at the
+            // end of a small run (nothing left to stop then): only repeated failures count for it
+            let threshold = if v.argv.iter().any(|a| a == "view") { 1 } else { 3 };
+            if streaming && r.io.stdout_failed_writes >= threshold && !noticed {
                 out.fail = Some(Fail::new(
                     "early-stop",
                     "keeps-writing-to-failed-stdout",
